@@ -32,6 +32,10 @@ class _Top:
     def __repr__(self):
         return "TOP"
 
+    def __bool__(self):
+        # guards the checker itself: TOP (e.g. Env.get's default) must never be used as a Python truth value
+        raise AnalysisError("internal: TOP used as a boolean (missing explicit default in a state lookup)")
+
 
 TOP = _Top()
 
